@@ -423,6 +423,10 @@ func stateProgram(g *gen.G, length int) {
 		}
 		check(fmt.Sprintf("SetState(%d,%q) after rename", term, vote), after, true, nil, false, false)
 		oldTerm, oldVote = term, vote
+		// the handle that wrote it (used again by an in-process Stop + Restart) must read what it wrote
+		if t, v, err := st.State(); err != nil || t != term || v != vote {
+			violate("C13: State() on the storage object that executed SetState(%d,%q) returns (%d,%q,%v)", term, vote, t, v, err)
+		}
 		// a fresh handle must read what was written
 		s3, err := raft.NewStateStorage(dir)
 		if err == nil {
